@@ -500,10 +500,13 @@ Proof. repeat split; reflexivity. Qed.
 
 (** ** The whole-string theorem in the configuration read from the source *)
 
-Theorem whole_string ci g s : eff_multi = false -> ok ci g ->
+Lemma multi_is_off : eff_multi = false.
+Proof. reflexivity. Qed.
+
+Theorem whole_string ci g s : ok ci g ->
   search eff_multi eff_dotall ci (anchored (tr g)) s = glob_match ci g s.
 Proof.
-  intros Hm Hok. rewrite Hm. unfold anchored.
+  intros Hok. rewrite multi_is_off. unfold anchored.
   destruct flags_as_modelled as [_ [Hu [Hd [Hs He]]]]. rewrite Hs, He.
   unfold eff_dotall. rewrite Hu, Hd. cbn [andb].
   rewrite anchored_search_is_whole. apply translate_correct. exact Hok.
@@ -514,13 +517,6 @@ Theorem whole_string_refuted_multi :
   exists g s, ok false g /\ search true true false (RCat RBol (RCat (tr g) REol)) s = true /\ glob_match false g s = false.
 Proof.
   exists (lits [97; 98; 99]), [120; 10; 97; 98; 99]. split; [apply ok_lits|]. split; vm_compute; reflexivity.
-Qed.
-
-Theorem whole_string_current_refuted : eff_multi = true ->
-  exists g s, ok false g /\ search eff_multi eff_dotall false (anchored (tr g)) s = true /\ glob_match false g s = false.
-Proof.
-  intros Hm. destruct whole_string_refuted_multi as [g [s [Hok [H1 H2]]]]. exists g, s. split; [exact Hok|]. split; [|exact H2].
-  rewrite Hm. unfold anchored, eff_dotall. destruct flags_as_modelled as [_ [Hu [Hd [Hs He]]]]. rewrite Hs, He, Hu, Hd. exact H1.
 Qed.
 
 (** ** Refutations: the known findings, as facts about the model *)
@@ -534,21 +530,23 @@ Proof.
   exists (parse true (s_of "!(a|ab)")), (s_of "ab"). repeat split; vm_compute; reflexivity.
 Qed.
 
-(** []a] does not match "]" although the specification (POSIX, bash) says it does *)
-Theorem leading_bracket_refuted : peg_leading_rbracket = false ->
-  exists p s, k_lead_rbracket false p = true /\
-              whole false true false (tr (parse false p)) s = false /\ spec_matches false false p s = true.
-Proof.
-  intros H. vm_compute in H. first [discriminate H | exists (s_of "[]a]"), (s_of "]"); repeat split; vm_compute; reflexivity].
-Qed.
+(** repaired (787d8bd): a leading ']' is a member — []a] matches "]" and "a", [!]] rejects "]",
+    and the PEG twin reads these patterns as the specification does *)
+Theorem leading_bracket_repaired :
+  spec_matches false false (s_of "[]a]") (s_of "]") = true /\
+  whole false true false (tr (parse false (s_of "[]a]"))) (s_of "]") = true /\
+  whole false true false (tr (parse false (s_of "[]a]"))) (s_of "a") = true /\
+  whole false true false (tr (parse false (s_of "[!]]"))) (s_of "]") = false /\
+  whole false true false (tr (parse false (s_of "[!]]"))) (s_of "a") = true /\
+  print_regex (tr (parse false (s_of "[]-a]"))) = [91; 92; 93; 45; 97; 93].
+Proof. repeat split; vm_compute; reflexivity. Qed.
 
-(** [\a] does not match "a" *)
-Theorem escaped_alnum_refuted : peg_escaped_alnum_plain = false ->
-  exists p s, k_esc_alnum false p = true /\
-              whole false true false (tr (parse false p)) s = false /\ spec_matches false false p s = true.
-Proof.
-  intros H. vm_compute in H. first [discriminate H | exists [91; 92; 97; 93], (s_of "a"); repeat split; vm_compute; reflexivity].
-Qed.
+(** repaired (f7a052e): an escaped letter or digit in a bracket is that character *)
+Theorem escaped_alnum_repaired :
+  whole false true false (tr (parse false [91; 92; 97; 93])) (s_of "a") = true /\
+  whole false true false (tr (parse false [91; 92; 97; 93])) [7] = false /\
+  print_regex (tr (parse false [91; 92; 97; 92; 100; 93])) = s_of "[ad]".
+Proof. repeat split; vm_compute; reflexivity. Qed.
 
 (** [+--] does not match "," *)
 Theorem class_ops_refuted :
